@@ -145,8 +145,9 @@ pub fn project_index(ctx: &mut Ctx, ir: &IndexRaw, metric: Metric, dim: usize, w
     }
     let updated: Vec<i64> = ir.updated.iter().map(|id| ctx.rank(*id)).collect();
     let meta = match &ir.meta {
-        None => Value::Null,
+        None => json!({"has": false}),
         Some(m) => json!({
+            "has": true,
             "metric": Metric::from_name(&m.metric_name).map(|m| m.short().to_string()).unwrap_or_else(|| format!("?{}", m.metric_name)),
             "dim": m.dim as i64,
             "items": m.items.iter().map(|id| ctx.rank(*id)).collect::<Vec<_>>(),
@@ -180,7 +181,7 @@ pub fn project_index(ctx: &mut Ctx, ir: &IndexRaw, metric: Metric, dim: usize, w
     json!({
         "metric": metric.short(), "dim": dim as i64,
         "store": store, "updated": updated, "meta": meta,
-        "version": ir.version.map(|v| json!([v[0] as i64, v[1] as i64, v[2] as i64])).unwrap_or(Value::Null),
+        "version": ir.version.map(|v| json!([v[0] as i64, v[1] as i64, v[2] as i64])).unwrap_or(json!([])),
         "nodes": nodes, "leafw_bad": leafw_bad, "problems": problems,
     })
 }
@@ -225,7 +226,7 @@ pub fn observe(ctx: &mut Ctx, rtxn: &RoTxn, db: RawDb, idx: u16, metric: Metric,
             let empty = w.is_empty(rtxn).unwrap();
             let need_build = w.need_build(rtxn).unwrap();
             let open = open_class::<D>(rtxn, idx, db);
-            let mut rd = Value::Null;
+            let mut rd = json!({"has": false});
             if open == "Ok" {
                 let reader = arroy::Reader::<D>::open(rtxn, idx, adb).unwrap();
                 let mut rcontains = Vec::new();
@@ -245,6 +246,7 @@ pub fn observe(ctx: &mut Ctx, rtxn: &RoTxn, db: RawDb, idx: u16, metric: Metric,
                     }
                 }
                 rd = json!({
+                    "has": true,
                     "n_items": reader.n_items() as i64,
                     "items": reader.item_ids().iter().map(|id| ctx.rank(id)).collect::<Vec<_>>(),
                     "n_trees": reader.n_trees() as i64,
@@ -261,9 +263,9 @@ pub fn observe(ctx: &mut Ctx, rtxn: &RoTxn, db: RawDb, idx: u16, metric: Metric,
     match r {
         Ok((contains, vecs, iter, iter_err, empty, need_build, open, rd)) => json!({
             "ok": true, "contains": contains, "vecs": vecs, "iter": iter, "iter_err": iter_err,
-            "empty": empty, "need_build": need_build, "open": open, "open_other": open_other, "rd": rd,
+            "empty": empty, "need_build": need_build, "open": open, "open_other": open_other, "other": other.short(), "rd": rd,
         }),
-        Err(p) => json!({"ok": false, "panic": panic_msg(p), "open_other": open_other}),
+        Err(p) => json!({"ok": false, "panic": panic_msg(p), "open_other": open_other, "other": other.short()}),
     }
 }
 
@@ -536,9 +538,9 @@ pub fn run_history(h: &History, hno: usize, cfg: &RunCfg, out: &mut Vec<Value>) 
             Op::Build { o, .. } => {
                 let bo = do_build(w, db, idx, m, dim, o, cfg.max_polls);
                 ev["ev"] = json!("Build");
-                ev["args"] = json!({"n_trees": o.n_trees.map(|x| x as i64), "split_after": o.split_after.map(|x| x as i64),
-                    "mem": o.mem.map(|x| x.min(i32::MAX as usize) as i64), "threads": rayon::current_num_threads() as i64,
-                    "cancel_at": o.cancel_at.map(|x| x.min(i32::MAX as u64) as i64)});
+                ev["args"] = json!({"n_trees": o.n_trees.map(|x| x as i64).unwrap_or(0), "split_after": o.split_after.map(|x| x as i64).unwrap_or(0),
+                    "mem": o.mem.map(|x| x.min(i32::MAX as usize) as i64).unwrap_or(-1), "threads": rayon::current_num_threads() as i64,
+                    "cancel_at": o.cancel_at.map(|x| x.min(i32::MAX as u64) as i64).unwrap_or(-1)});
                 ev["polls"] = json!(bo.polls.min(i32::MAX as u64) as i64);
                 if bo.res["c"] == "Ok" {
                     stats.builds_ok += 1;
@@ -553,6 +555,7 @@ pub fn run_history(h: &History, hno: usize, cfg: &RunCfg, out: &mut Vec<Value>) 
             }
             Op::Search { seed, .. } => {
                 ev["ev"] = json!("Search");
+                with_sides = cfg.sides;
                 let m = metric[&idx];
                 ev["q"] = search::search_event(&mut ctx, w, db, idx, m, dim, *seed);
             }
@@ -568,7 +571,7 @@ pub fn run_history(h: &History, hno: usize, cfg: &RunCfg, out: &mut Vec<Value>) 
         let dec = decode::decode_dump(&after, &|i| metric.get(&i).copied());
         let empty = IndexRaw::default();
         let st = project_index(&mut ctx, dec.get(&idx).unwrap_or(&empty), m_after, dim, with_sides);
-        if with_sides {
+        if with_sides && matches!(op, Op::Build { .. }) {
             let nsplits = st["nodes"].as_array().unwrap().iter().filter(|n| n["tag"] == "S").count();
             if nsplits > 0 {
                 stats.nontrivial_builds += 1;
